@@ -238,4 +238,21 @@ CHECKS = {
              "right length may be refused or decrypted as c mod n (the property names padding, length and authentication only). "
              "cp_ped and the g1/g2/gt share multiplications are not driven.",
         technique="TLC evaluation of explicit TLA+ scheme definitions on recorded events (trace validation) + TLC model checking of padding/Paillier/sharing/delegation design models"),
+    "C05": dict(
+        text="Design models: model/Sig (ECDSA and EC-Schnorr over cyclic groups of order 7, 11, 13: every key, nonce, digest, every "
+             "(r, s) in -1..2n and every key object incl. identity and off-curve; completeness, acceptance only of triples satisfying the "
+             "definition, and coded-guards = definition) and model/RsaPad (the EMSA-PKCS1-v1_5 / basic scanners as coded against the "
+             "canonical re-encoding, every byte string over a reduced alphabet) are checked exhaustively; the pinned guards are kept as "
+             "expected-to-fail controls (identity public key, missing commitment check, 7-byte padding string, unchecked payload "
+             "length, s = 0 not retried). Conformance: for ECDSA and EC-Schnorr on every selectable prime curve, RSA-PSS (1024/1023/522/"
+             "521-bit moduli; PKCS#1 v1.5 and basic padding builds in thorough), BLS, Boneh-Boyen and ZSS, drv_sig produces honest "
+             "signatures for every message-length class in both hash-then-sign and pre-hashed mode and applies the quantifier's mutation "
+             "list (bit flips of message / components / key, r+n, s+n, n-s, n-r, 0, n, negative, sig+N, zero-prefixed and shortened "
+             "encodings, mutated ENCODED messages re-signed with the private exponent, identity / off-curve / foreign / negated keys, "
+             "forged pairs for the identity key); every verdict must equal the scheme definition evaluated in TLA+ (FIPS 186-4 6.4, "
+             "RFC 8017 8.1.2/9.1.2 and 8.2.2/9.2 with transcribed SHA-256/MGF1, pairing schemes through verified ghost logarithms).",
+        ref="§4 C05",
+        note=_NOTE + " Not driven: CL, PS/mPS, vBNN-IBS, PoK/SoK, ring and homomorphic signatures (listed in the evidence under "
+             "not_covered). The hash-to-curve value inside cp_bls_ver is bound from the execution (its correctness is C13).",
+        technique="TLC model checking of signature guards and padding scanners + TLC trace validation of recorded sign/verify calls against TLA+ scheme definitions"),
 }
